@@ -182,6 +182,10 @@ func vByte(s string, i int) int {
 
 // verifDecodeBody returns the payload of a response body given as the
 // sequence of writes the recorder received. coding "" means identity.
+// verifKeep returns b as it is now: natively a copy (writers hand the same internal buffer to every Write call),
+// symbolically the value itself (values are immutable there).
+func verifKeep(b []byte) []byte { return append([]byte(nil), b...) }
+
 // Natively the bytes are really decoded; under the symbolic executor a
 // compressor stream is one opaque token ENC(coding, payload) and decoding
 // succeeds iff the body is exactly one such token of that coding.
@@ -481,6 +485,17 @@ func verifSchedAcquire(do func()) {
 		s.mu.Unlock()
 	}
 }
+
+// verifYield: an explicit point at which the scheduler may switch threads (interleaved mode); natively the
+// goroutine takes its turn in the enforced order.
+func verifYield() { verifSchedAcquire(func() {}) }
+
+// verifAtomicBegin/End bracket harness bookkeeping that several threads share: natively one global lock, symbolically
+// nothing (there is no switch point inside).
+var verifAtomicMu sync.Mutex
+
+func verifAtomicBegin() { verifAtomicMu.Lock() }
+func verifAtomicEnd()   { verifAtomicMu.Unlock() }
 
 // verifRWMutex / verifMutex stand in for sync.RWMutex / sync.Mutex in the instrumented copies of the sources.
 type verifRWMutex struct{ m sync.RWMutex }
